@@ -1,6 +1,1464 @@
-//! C17 — not implemented yet.
+//! C17 — Merkle proofs verify only true membership; each leaf is claimed once.
+//!
+//! Independent oracle: trees, proofs and the reference fold are built here with the RustCrypto
+//! `sha2` / `sha3` crates (SHA-256 and Keccak-256), leaf pre-images are serialised with the
+//! `stellar-xdr` types by hand (an `ScVal::Map` with the struct's field names as sorted symbol
+//! keys).  Nothing of `stellar_contract_utils::crypto` is used on the oracle side.
+//!
+//! Sub-checks
+//! * `verify-sorted`   — `Verifier::<H>::verify` on sorted-pair trees (odd node promoted, or the
+//!                       OpenZeppelin merkle-tree heap layout): unbalanced shapes, every leaf honest,
+//!                       one probe of every corruption kind (+ extras) per tree, both hashers.
+//! * `verify-indexed`  — `Verifier::<H>::verify_with_index` on positional trees padded to 2^k with
+//!                       DISTINCT filler leaves (DESIGN §7), incl. the wrong-index corruptions.
+//! * `exhaustive-small`— deterministic: n = 1..=17, every leaf, every index value 0..=2^len, every
+//!                       drop position, every swap pair.
+//! * `distrib`         — histories on the harness distributor (both hashers, both claim functions,
+//!                       settable root).
+//! * `airdrop`, `voting` — histories on the two examples (token balances / vote tallies).
+
 use crate::engine::*;
+use crate::envx;
+use crate::gen::pick;
+use proptest::prelude::*;
+use serde::{Deserialize, Serialize};
+use serde_json::json;
+use sha2::Digest as _;
+use soroban_sdk::xdr::{Int128Parts, Limits, ScAddress, ScMap, ScMapEntry, ScSymbol, ScVal, WriteXdr};
+use soroban_sdk::{Address, BytesN, Env};
+use std::collections::BTreeSet;
+
+type H32 = [u8; 32];
+
+// =============================================================== independent reference
+
+#[derive(Clone, Copy, Debug, PartialEq, Eq, Serialize, Deserialize)]
+pub enum Hk {
+    Sha256,
+    Keccak,
+}
+impl Hk {
+    fn tag(self) -> &'static str {
+        match self {
+            Hk::Sha256 => "sha256",
+            Hk::Keccak => "keccak256",
+        }
+    }
+}
+
+fn hash(hk: Hk, parts: &[&[u8]]) -> H32 {
+    match hk {
+        Hk::Sha256 => {
+            let mut h = sha2::Sha256::new();
+            for p in parts {
+                h.update(p);
+            }
+            h.finalize().into()
+        }
+        Hk::Keccak => {
+            let mut h = sha3::Keccak256::new();
+            for p in parts {
+                h.update(p);
+            }
+            h.finalize().into()
+        }
+    }
+}
+fn h_pos(hk: Hk, l: &H32, r: &H32) -> H32 {
+    hash(hk, &[l, r])
+}
+fn h_sorted(hk: Hk, a: &H32, b: &H32) -> H32 {
+    if a <= b {
+        h_pos(hk, a, b)
+    } else {
+        h_pos(hk, b, a)
+    }
+}
+
+/// harness-side pseudo-random bytes: a pure function of (seed, tag, i)
+fn derive(seed: u64, tag: &str, i: u32) -> H32 {
+    hash(Hk::Sha256, &[b"verif-c17", &seed.to_le_bytes(), tag.as_bytes(), &i.to_le_bytes()])
+}
+fn derive_u64(seed: u64, tag: &str, i: u32) -> u64 {
+    let d = derive(seed, tag, i);
+    u64::from_le_bytes(d[..8].try_into().unwrap())
+}
+
+/// `n` distinct pseudo-random leaves; the first `prefix` bytes are common to all of them
+/// (so that the sorted-pair comparison is decided late in the byte string).
+fn gen_leaves(seed: u64, n: usize, prefix: usize) -> Vec<H32> {
+    let prefix = prefix.min(30);
+    let pre = derive(seed, "prefix", 0);
+    let mut out: Vec<H32> = Vec::with_capacity(n);
+    let mut ctr = 0u32;
+    while out.len() < n {
+        let mut l = derive(seed, "leaf", ctr);
+        ctr += 1;
+        l[..prefix].copy_from_slice(&pre[..prefix]);
+        if !out.contains(&l) {
+            out.push(l);
+        }
+    }
+    out
+}
+
+#[derive(Clone, Copy, Debug, PartialEq, Eq, Serialize, Deserialize)]
+pub enum Form {
+    /// sorted-pair, an odd node is promoted unchanged to the next level
+    SortedPromote,
+    /// sorted-pair, OpenZeppelin merkle-tree (JS) complete-binary-tree array layout
+    SortedHeap,
+    /// positional, padded to 2^k with distinct fillers
+    Positional,
+}
+impl Form {
+    fn positional(self) -> bool {
+        self == Form::Positional
+    }
+}
+
+#[derive(Clone, Debug)]
+struct Tree {
+    hk: Hk,
+    form: Form,
+    root: H32,
+    leaves: Vec<H32>,
+    proofs: Vec<Vec<H32>>,
+}
+
+fn build_tree(form: Form, hk: Hk, leaves: &[H32], seed: u64) -> Tree {
+    let n = leaves.len();
+    assert!(n >= 1);
+    let (root, proofs) = match form {
+        Form::SortedPromote => {
+            let mut levels: Vec<Vec<H32>> = vec![leaves.to_vec()];
+            while levels.last().unwrap().len() > 1 {
+                let cur = levels.last().unwrap();
+                let mut next = Vec::with_capacity(cur.len().div_ceil(2));
+                for c in cur.chunks(2) {
+                    if c.len() == 2 {
+                        next.push(h_sorted(hk, &c[0], &c[1]));
+                    } else {
+                        next.push(c[0]); // promoted unchanged
+                    }
+                }
+                levels.push(next);
+            }
+            let root = levels.last().unwrap()[0];
+            let proofs = (0..n)
+                .map(|i| {
+                    let mut pos = i;
+                    let mut p = vec![];
+                    for lvl in &levels[..levels.len() - 1] {
+                        let sib = pos ^ 1;
+                        if sib < lvl.len() {
+                            p.push(lvl[sib]);
+                        }
+                        pos >>= 1;
+                    }
+                    p
+                })
+                .collect();
+            (root, proofs)
+        }
+        Form::SortedHeap => {
+            let len = 2 * n - 1;
+            let mut t = vec![[0u8; 32]; len];
+            for (i, l) in leaves.iter().enumerate() {
+                t[len - 1 - i] = *l;
+            }
+            for i in (0..len - n).rev() {
+                t[i] = h_sorted(hk, &t[2 * i + 1], &t[2 * i + 2]);
+            }
+            let proofs = (0..n)
+                .map(|i| {
+                    let mut pos = len - 1 - i;
+                    let mut p = vec![];
+                    while pos > 0 {
+                        let sib = if pos % 2 == 1 { pos + 1 } else { pos - 1 };
+                        p.push(t[sib]);
+                        pos = (pos - 1) / 2;
+                    }
+                    p
+                })
+                .collect();
+            (t[0], proofs)
+        }
+        Form::Positional => {
+            let size = n.next_power_of_two();
+            let mut level: Vec<H32> = leaves.to_vec();
+            let mut ctr = 0u32;
+            while level.len() < size {
+                let f = derive(seed, "filler", ctr);
+                ctr += 1;
+                if !level.contains(&f) {
+                    level.push(f);
+                }
+            }
+            let mut levels = vec![level];
+            while levels.last().unwrap().len() > 1 {
+                let cur = levels.last().unwrap();
+                let next: Vec<H32> = cur.chunks(2).map(|c| h_pos(hk, &c[0], &c[1])).collect();
+                levels.push(next);
+            }
+            let root = levels.last().unwrap()[0];
+            let proofs = (0..n)
+                .map(|i| {
+                    let mut pos = i;
+                    let mut p = vec![];
+                    for lvl in &levels[..levels.len() - 1] {
+                        p.push(lvl[pos ^ 1]);
+                        pos >>= 1;
+                    }
+                    p
+                })
+                .collect();
+            (root, proofs)
+        }
+    };
+    Tree { hk, form, root, leaves: leaves.to_vec(), proofs }
+}
+
+/// One verifier input.  `index` is only meaningful for the positional form.
+#[derive(Clone, Debug, PartialEq, Eq)]
+struct Input {
+    proof: Vec<H32>,
+    root: H32,
+    leaf: H32,
+    index: u32,
+}
+
+/// Reference fold written from the documentation of `verify` / `verify_with_index`.
+/// `None` = the documented error cases of `verify_with_index` (proof length >= 32, index out of
+/// bounds for the proof length).
+fn ref_verify(hk: Hk, positional: bool, inp: &Input) -> Option<bool> {
+    let mut cur = inp.leaf;
+    if positional {
+        let len = inp.proof.len();
+        if len >= 32 || (inp.index as u64) >= (1u64 << len) {
+            return None;
+        }
+        let mut idx = inp.index;
+        for p in &inp.proof {
+            cur = if idx & 1 == 0 { h_pos(hk, &cur, p) } else { h_pos(hk, p, &cur) };
+            idx >>= 1;
+        }
+    } else {
+        for p in &inp.proof {
+            cur = h_sorted(hk, &cur, p);
+        }
+    }
+    Some(cur == inp.root)
+}
+
+fn honest(t: &Tree, i: usize) -> Input {
+    Input { proof: t.proofs[i].clone(), root: t.root, leaf: t.leaves[i], index: i as u32 }
+}
+
+// =============================================================== corruptions
+
+#[derive(Clone, Copy, Debug, PartialEq, Eq, Serialize, Deserialize)]
+pub enum Kind {
+    LeafBit,
+    NonMember,
+    ProofBit,
+    Swap,
+    DropFirst,
+    DropLast,
+    DropMid,
+    Append,
+    Insert,
+    RootBit,
+    OtherRoot,
+    ProofOf,
+    IdxPlus1,
+    IdxMinus1,
+    IdxFlip,
+    IdxHigh,
+    IdxOther,
+}
+impl Kind {
+    fn name(self) -> &'static str {
+        match self {
+            Kind::LeafBit => "leaf-bit-flip",
+            Kind::NonMember => "non-member",
+            Kind::ProofBit => "proof-bit-flip",
+            Kind::Swap => "proof-swap",
+            Kind::DropFirst => "proof-drop-first",
+            Kind::DropLast => "proof-drop-last",
+            Kind::DropMid => "proof-drop-middle",
+            Kind::Append => "proof-append",
+            Kind::Insert => "proof-insert",
+            Kind::RootBit => "root-bit-flip",
+            Kind::OtherRoot => "other-root",
+            Kind::ProofOf => "other-leafs-proof",
+            Kind::IdxPlus1 => "index-plus-1",
+            Kind::IdxMinus1 => "index-minus-1",
+            Kind::IdxFlip => "index-bit-flip",
+            Kind::IdxHigh => "index-high-bits",
+            Kind::IdxOther => "index-of-other-leaf",
+        }
+    }
+    fn is_index(self) -> bool {
+        matches!(self, Kind::IdxPlus1 | Kind::IdxMinus1 | Kind::IdxFlip | Kind::IdxHigh | Kind::IdxOther)
+    }
+    fn is_proof_only(self) -> bool {
+        matches!(self, Kind::ProofBit | Kind::Swap | Kind::DropFirst | Kind::DropLast | Kind::DropMid | Kind::Append | Kind::Insert)
+    }
+}
+const COMMON_KINDS: [Kind; 12] = [
+    Kind::LeafBit,
+    Kind::NonMember,
+    Kind::ProofBit,
+    Kind::Swap,
+    Kind::DropFirst,
+    Kind::DropLast,
+    Kind::DropMid,
+    Kind::Append,
+    Kind::Insert,
+    Kind::RootBit,
+    Kind::OtherRoot,
+    Kind::ProofOf,
+];
+const INDEX_KINDS: [Kind; 5] = [Kind::IdxPlus1, Kind::IdxMinus1, Kind::IdxFlip, Kind::IdxHigh, Kind::IdxOther];
+const PROOF_KINDS: [Kind; 7] = [Kind::ProofBit, Kind::Swap, Kind::DropFirst, Kind::DropLast, Kind::DropMid, Kind::Append, Kind::Insert];
+
+/// A corruption: kind + raw parameters resolved against the tree at run time.
+#[derive(Clone, Debug, Serialize, Deserialize)]
+pub struct Probe {
+    pub kind: Kind,
+    /// selector of the attacked leaf
+    pub leaf: u16,
+    pub a: u16,
+    pub b: u16,
+    pub r: u64,
+}
+
+fn flip_bit(x: &mut H32, bit: usize) {
+    x[bit / 8] ^= 1 << (bit % 8);
+}
+
+/// The proof-level corruptions (shared by the verifier probes and the distributor histories).
+/// `None`: not applicable to this proof (too short …).
+fn corrupt_proof(kind: Kind, proof: &[H32], root: &H32, leaf: &H32, a: u16, b: u16, r: u64) -> Option<Vec<H32>> {
+    let len = proof.len();
+    let mut p = proof.to_vec();
+    let extra = |p: &Vec<H32>| -> H32 {
+        match pick(b, 4) {
+            1 if !p.is_empty() => p[pick(a, p.len())],
+            2 => *root,
+            3 => *leaf,
+            _ => derive(r, "extra", 0),
+        }
+    };
+    match kind {
+        Kind::ProofBit => {
+            if len == 0 {
+                return None;
+            }
+            flip_bit(&mut p[pick(a, len)], pick(b, 256));
+        }
+        Kind::Swap => {
+            if len < 2 {
+                return None;
+            }
+            let i = pick(a, len);
+            let mut j = pick(b, len - 1);
+            if j >= i {
+                j += 1;
+            }
+            p.swap(i, j);
+        }
+        Kind::DropFirst => {
+            if len == 0 {
+                return None;
+            }
+            p.remove(0);
+        }
+        Kind::DropLast => {
+            if len == 0 {
+                return None;
+            }
+            p.pop();
+        }
+        Kind::DropMid => {
+            if len < 3 {
+                return None;
+            }
+            p.remove(1 + pick(a, len - 2));
+        }
+        Kind::Append => {
+            let x = extra(&p);
+            p.push(x);
+        }
+        Kind::Insert => {
+            let x = extra(&p);
+            p.insert(pick(r as u16, len + 1), x);
+        }
+        _ => return None,
+    }
+    Some(p)
+}
+
+/// Build the corrupted input for a probe; `None` = not applicable.
+fn corrupt(t: &Tree, alt_roots: &[H32], pr: &Probe) -> Option<(usize, Input)> {
+    let n = t.leaves.len();
+    let i = pick(pr.leaf, n);
+    let mut inp = honest(t, i);
+    let len = inp.proof.len();
+    match pr.kind {
+        k if k.is_proof_only() => {
+            inp.proof = corrupt_proof(k, &inp.proof, &inp.root, &inp.leaf, pr.a, pr.b, pr.r)?;
+        }
+        Kind::LeafBit => flip_bit(&mut inp.leaf, pick(pr.a, 256)),
+        Kind::NonMember => {
+            let x = derive(pr.r, "nonmember", 0);
+            if t.leaves.contains(&x) {
+                return None;
+            }
+            inp.leaf = x;
+        }
+        Kind::RootBit => flip_bit(&mut inp.root, pick(pr.a, 256)),
+        Kind::OtherRoot => {
+            let k = alt_roots.len() + 3;
+            inp.root = match pick(pr.a, k) {
+                x if x < alt_roots.len() => alt_roots[x],
+                x if x == alt_roots.len() => [0u8; 32],
+                x if x == alt_roots.len() + 1 => inp.leaf,
+                _ => derive(pr.r, "root", 0),
+            };
+        }
+        Kind::ProofOf => {
+            if n < 2 {
+                return None;
+            }
+            let mut j = pick(pr.a, n - 1);
+            if j >= i {
+                j += 1;
+            }
+            inp.proof = t.proofs[j].clone();
+        }
+        Kind::IdxPlus1 => inp.index += 1,
+        Kind::IdxMinus1 => {
+            if inp.index == 0 {
+                return None;
+            }
+            inp.index -= 1;
+        }
+        Kind::IdxFlip => {
+            if len == 0 {
+                return None;
+            }
+            inp.index ^= 1 << pick(pr.a, len);
+        }
+        Kind::IdxHigh => {
+            // len < 32 always here (n <= 300)
+            let hi_bits = 32 - len;
+            inp.index = match pick(pr.b, 4) {
+                0 => inp.index | (1u32 << (len + pick(pr.a, hi_bits))),
+                1 => inp.index | (1u32 << len), // exactly index + 2^len
+                2 => u32::MAX,
+                _ => {
+                    let hi = ((pr.r as u32) | 1) as u64; // non-zero
+                    (inp.index as u64 | ((hi << len) & 0xffff_ffff)) as u32 | (1u32 << (len + pick(pr.a, hi_bits)))
+                }
+            };
+        }
+        Kind::IdxOther => {
+            if n < 2 {
+                return None;
+            }
+            let mut j = pick(pr.a, n - 1);
+            if j >= i {
+                j += 1;
+            }
+            inp.index = j as u32;
+        }
+        _ => return None,
+    }
+    Some((i, inp))
+}
+
+// =============================================================== soroban glue
+
+fn b32(e: &Env, x: &H32) -> BytesN<32> {
+    BytesN::from_array(e, x)
+}
+fn bvec(e: &Env, xs: &[H32]) -> soroban_sdk::Vec<BytesN<32>> {
+    let mut v = soroban_sdk::Vec::new(e);
+    for x in xs {
+        v.push_back(b32(e, x));
+    }
+    v
+}
+
+fn lib_fn(hk: Hk, positional: bool) -> &'static str {
+    match (hk, positional) {
+        (Hk::Sha256, false) => "verify_sha",
+        (Hk::Keccak, false) => "verify_kec",
+        (Hk::Sha256, true) => "verify_idx_sha",
+        (Hk::Keccak, true) => "verify_idx_kec",
+    }
+}
+fn entry_name(positional: bool) -> &'static str {
+    if positional {
+        "verify_with_index"
+    } else {
+        "verify"
+    }
+}
+
+fn call_verify(e: &Env, lib: &Address, hk: Hk, positional: bool, inp: &Input) -> Result<bool, String> {
+    if positional {
+        envx::call_t::<bool>(e, lib, lib_fn(hk, true), args![e; bvec(e, &inp.proof), b32(e, &inp.root), b32(e, &inp.leaf), inp.index])
+    } else {
+        envx::call_t::<bool>(e, lib, lib_fn(hk, false), args![e; bvec(e, &inp.proof), b32(e, &inp.root), b32(e, &inp.leaf)])
+    }
+}
+
+fn hx(x: &H32) -> String {
+    hex::encode(&x[..6])
+}
+fn describe(inp: &Input) -> String {
+    format!(
+        "leaf {}.. index {} root {}.. proof[{}] [{}]",
+        hx(&inp.leaf),
+        inp.index,
+        hx(&inp.root),
+        inp.proof.len(),
+        inp.proof.iter().map(hx).collect::<Vec<_>>().join(",")
+    )
+}
+
+// =============================================================== verifier sub-checks
+
+#[derive(Clone, Debug, Serialize, Deserialize)]
+pub struct VCase {
+    pub form: Form,
+    pub n: u16,
+    pub seed: u64,
+    /// number of leading bytes common to all leaves (0..=30)
+    pub prefix: u8,
+    pub probes: Vec<Probe>,
+}
+
+#[derive(Default)]
+struct Tally {
+    accepted: u64,
+    rejected: u64,
+}
+
+/// honest probe: must be accepted
+fn check_honest(e: &Env, lib: &Address, t: &Tree, i: usize, ctx: &mut Ctx, tally: &mut Tally) -> R {
+    let pos = t.form.positional();
+    let inp = honest(t, i);
+    if ref_verify(t.hk, pos, &inp) != Some(true) {
+        bail!("C17/harness-internal/builder-inconsistent", "reference fold rejects the builder's own proof: {}", describe(&inp));
+    }
+    let r = call_verify(e, lib, t.hk, pos, &inp);
+    ctx.op(matches!(r, Ok(true)));
+    ensure!(
+        matches!(r, Ok(true)),
+        format!("C17/{}/honest-proof-rejected/{}", entry_name(pos), t.hk.tag()),
+        "n={} leaf #{i}, {:?} tree, honest proof gave {:?}: {}",
+        t.leaves.len(),
+        t.form,
+        r,
+        describe(&inp)
+    );
+    tally.accepted += 1;
+    Ok(())
+}
+
+/// corrupted probe: must be rejected (false or failure)
+fn check_corrupted(e: &Env, lib: &Address, t: &Tree, i: usize, kind: &str, inp: &Input, ctx: &mut Ctx, tally: &mut Tally) -> R {
+    let pos = t.form.positional();
+    if *inp == honest(t, i) {
+        ctx.class("discarded_identical");
+        return Ok(());
+    }
+    let rv = ref_verify(t.hk, pos, inp);
+    if rv == Some(true) {
+        // not a corruption for the scheme (would need a hash collision, or the mutated value is
+        // not folded) — never demanded to be rejected
+        ctx.class("discarded_not_a_corruption");
+        return Ok(());
+    }
+    let r = call_verify(e, lib, t.hk, pos, inp);
+    ctx.op(matches!(r, Ok(true)));
+    ensure!(
+        !matches!(r, Ok(true)),
+        format!("C17/{}/corruption-accepted/{}", entry_name(pos), kind),
+        "n={} leaf #{i}, {:?} {} tree: corrupted input accepted. honest: {} | corrupted: {}",
+        t.leaves.len(),
+        t.form,
+        t.hk.tag(),
+        describe(&honest(t, i)),
+        describe(inp)
+    );
+    tally.rejected += 1;
+    ctx.class(&format!("rejected:{kind}"));
+    match (&r, rv) {
+        (Err(_), None) => ctx.class("out_of_bounds_failed"),
+        (Ok(false), None) => ctx.class("out_of_bounds_returned_false"),
+        (Err(_), Some(false)) => ctx.class("rejected_by_failure_where_false_expected"),
+        _ => {}
+    }
+    Ok(())
+}
+
+fn honest_sample(n: usize) -> Vec<usize> {
+    if n <= 64 {
+        (0..n).collect()
+    } else {
+        // generous sample: 64 evenly spaced leaves incl. first and last
+        let mut s: BTreeSet<usize> = (0..64).map(|k| k * (n - 1) / 63).collect();
+        s.insert(n - 1);
+        s.into_iter().collect()
+    }
+}
+
+fn alt_roots_for(t: &Tree, seed: u64) -> Vec<H32> {
+    let n = t.leaves.len();
+    let other_hk = if t.hk == Hk::Sha256 { Hk::Keccak } else { Hk::Sha256 };
+    let other_form = match t.form {
+        Form::Positional => Form::SortedPromote,
+        Form::SortedPromote => Form::SortedHeap,
+        Form::SortedHeap => Form::Positional,
+    };
+    let other_leaves = gen_leaves(seed ^ 0x9e37_79b9_7f4a_7c15, n, 0);
+    let mut shuffled = t.leaves.clone();
+    shuffled.rotate_left(1);
+    vec![
+        build_tree(t.form, other_hk, &t.leaves, seed).root,
+        build_tree(t.form, t.hk, &other_leaves, seed).root,
+        build_tree(other_form, t.hk, &t.leaves, seed).root,
+        build_tree(t.form, t.hk, &shuffled, seed).root,
+    ]
+}
+
+pub fn run_verify(case: &VCase, ctx: &mut Ctx) -> R {
+    let n = (case.n.max(1)) as usize;
+    let leaves = gen_leaves(case.seed, n, case.prefix as usize);
+    let mut both = true;
+    for hk in [Hk::Sha256, Hk::Keccak] {
+        let t = build_tree(case.form, hk, &leaves, case.seed);
+        let alts = alt_roots_for(&t, case.seed);
+        let e = envx::new_env(100, envx::BIG_TTL);
+        let lib = e.register(crate::contracts::c17::merkle_lib::MerkleLib, ());
+        let mut tally = Tally::default();
+        for i in honest_sample(n) {
+            check_honest(&e, &lib, &t, i, ctx, &mut tally)?;
+        }
+        for pr in &case.probes {
+            if pr.kind.is_index() && !case.form.positional() {
+                continue;
+            }
+            match corrupt(&t, &alts, pr) {
+                None => ctx.class("inapplicable"),
+                Some((i, inp)) => {
+                    // the attacked leaf's honest proof is always among the accepted probes
+                    if n > 64 {
+                        check_honest(&e, &lib, &t, i, ctx, &mut tally)?;
+                    }
+                    check_corrupted(&e, &lib, &t, i, pr.kind.name(), &inp, ctx, &mut tally)?;
+                }
+            }
+        }
+        both &= tally.accepted >= 1 && tally.rejected >= 5;
+        ctx.class_n("trees", 1);
+    }
+    if n >= 3 && !n.is_power_of_two() {
+        ctx.class("unbalanced_tree");
+        if both {
+            ctx.nontrivial = true;
+            ctx.class("nontrivial");
+        }
+    }
+    if n == 1 {
+        ctx.class("single_leaf_tree");
+    }
+    Ok(())
+}
+
+fn n_strategy(tier: Tier) -> BoxedStrategy<u16> {
+    match tier {
+        Tier::Quick => prop_oneof![
+            6 => 1u16..=40,
+            2 => proptest::sample::select(vec![1u16, 2, 3, 4, 5, 6, 7, 8, 9, 15, 16, 17, 31, 32, 33]),
+        ]
+        .boxed(),
+        Tier::Thorough => prop_oneof![
+            4 => 1u16..=40,
+            4 => 1u16..=300,
+            2 => proptest::sample::select(vec![1u16, 2, 3, 5, 7, 9, 17, 33, 63, 64, 65, 127, 128, 129, 255, 256, 257, 300]),
+        ]
+        .boxed(),
+    }
+}
+
+fn probe_of(kind: BoxedStrategy<Kind>) -> BoxedStrategy<Probe> {
+    (kind, any::<u16>(), any::<u16>(), any::<u16>(), any::<u64>()).prop_map(|(kind, leaf, a, b, r)| Probe { kind, leaf, a, b, r }).boxed()
+}
+
+fn vcase_strategy(forms: Vec<Form>, tier: Tier) -> BoxedStrategy<VCase> {
+    let positional = forms.contains(&Form::Positional);
+    let mut kinds: Vec<Kind> = COMMON_KINDS.to_vec();
+    if positional {
+        kinds.extend(INDEX_KINDS);
+    }
+    // one probe of every kind per tree …
+    let fixed: Vec<BoxedStrategy<Probe>> = kinds.iter().map(|k| probe_of(Just(*k).boxed())).collect();
+    // … plus extras (index kinds weighted up for the positional form)
+    let mut extra_kinds = kinds.clone();
+    if positional {
+        extra_kinds.extend(INDEX_KINDS);
+        extra_kinds.extend(INDEX_KINDS);
+    }
+    let extras = proptest::collection::vec(probe_of(proptest::sample::select(extra_kinds).boxed()), 0..tier.pick(12usize, 24usize));
+    let prefix = prop_oneof![5 => Just(0u8), 2 => 1u8..=30, 1 => Just(30u8)];
+    (proptest::sample::select(forms), n_strategy(tier), any::<u64>(), prefix, fixed, extras)
+        .prop_map(|(form, n, seed, prefix, mut fixed, extras)| {
+            fixed.extend(extras);
+            VCase { form, n, seed, prefix, probes: fixed }
+        })
+        .boxed()
+}
+fn sorted_strategy(tier: Tier) -> BoxedStrategy<VCase> {
+    vcase_strategy(vec![Form::SortedPromote, Form::SortedPromote, Form::SortedHeap], tier)
+}
+fn indexed_strategy(tier: Tier) -> BoxedStrategy<VCase> {
+    vcase_strategy(vec![Form::Positional], tier)
+}
+
+// --------------------------------------------------------------- exhaustive small trees
+
+fn exhaustive_slabs(tier: Tier) -> u64 {
+    tier.pick(17, 40)
+}
+
+fn run_exhaustive(_tier: Tier, slab: u64, ctx: &mut Ctx, out: &mut FixedOut) -> R {
+    let n = slab as usize + 1;
+    let seed = 0xC17_0000 + slab;
+    let leaves = gen_leaves(seed, n, if n % 3 == 0 { 29 } else { 0 });
+    let mut tally = Tally::default();
+    for form in [Form::SortedPromote, Form::SortedHeap, Form::Positional] {
+        for hk in [Hk::Sha256, Hk::Keccak] {
+            let t = build_tree(form, hk, &leaves, seed);
+            let e = envx::new_env(100, envx::BIG_TTL);
+            let lib = e.register(crate::contracts::c17::merkle_lib::MerkleLib, ());
+            out.failing = Some(json!({"n": n, "form": format!("{form:?}"), "hasher": hk.tag()}));
+            for i in 0..n {
+                check_honest(&e, &lib, &t, i, ctx, &mut tally)?;
+                let h = honest(&t, i);
+                let len = h.proof.len();
+                // every drop position
+                for d in 0..len {
+                    let mut inp = h.clone();
+                    inp.proof.remove(d);
+                    check_corrupted(&e, &lib, &t, i, "proof-drop-each", &inp, ctx, &mut tally)?;
+                }
+                // every swap pair
+                for a in 0..len {
+                    for b in a + 1..len {
+                        let mut inp = h.clone();
+                        inp.proof.swap(a, b);
+                        check_corrupted(&e, &lib, &t, i, "proof-swap-each", &inp, ctx, &mut tally)?;
+                    }
+                }
+                // every other member's leaf with this proof
+                for j in 0..n {
+                    if j != i {
+                        let mut inp = h.clone();
+                        inp.leaf = t.leaves[j];
+                        check_corrupted(&e, &lib, &t, i, "other-member-leaf", &inp, ctx, &mut tally)?;
+                    }
+                }
+                if form.positional() {
+                    // every index value 0..=2^len (2^len itself is out of bounds)
+                    for idx in 0..=(1u32 << len) {
+                        if idx != h.index {
+                            let mut inp = h.clone();
+                            inp.index = idx;
+                            check_corrupted(&e, &lib, &t, i, "index-each", &inp, ctx, &mut tally)?;
+                        }
+                    }
+                    // index + k*2^len for every k that fits a few high bits
+                    for bit in len..32 {
+                        let mut inp = h.clone();
+                        inp.index |= 1u32 << bit;
+                        check_corrupted(&e, &lib, &t, i, "index-high-bits", &inp, ctx, &mut tally)?;
+                    }
+                }
+            }
+            ctx.class_n("trees", 1);
+        }
+    }
+    out.failing = None;
+    out.evaluations += 1;
+    if n >= 3 && !n.is_power_of_two() && tally.accepted >= 1 && tally.rejected >= 5 {
+        out.nontrivial.push(hash_str(&format!("c17-exhaustive-{n}")));
+        ctx.class("nontrivial");
+    }
+    if out.samples.is_empty() && n == 5 {
+        out.samples.push(json!({"exhaustive_n": n, "accepted": tally.accepted, "rejected": tally.rejected}));
+    }
+    Ok(())
+}
+
+// =============================================================== claim histories
+
+#[derive(Clone, Copy, Debug, PartialEq, Eq, Serialize, Deserialize)]
+pub enum Target {
+    /// harness distributor: hasher and claim function
+    Distrib { keccak: bool, indexed: bool },
+    /// examples/fungible-merkle-airdrop
+    Airdrop,
+    /// examples/merkle-voting
+    Voting,
+}
+
+#[derive(Clone, Debug, Serialize, Deserialize)]
+pub enum Who {
+    Any(u16),
+    /// a position whose index is already claimed (falls back to Any)
+    Claimed(u16),
+    /// a position whose index is not yet claimed (falls back to Any)
+    Unclaimed(u16),
+}
+
+#[derive(Clone, Debug, Serialize, Deserialize)]
+pub enum DataVar {
+    Honest,
+    /// amount + d (d != 0)
+    AmountPlus(i8),
+    /// another account as the receiver / voter
+    OtherAddress(u16),
+    /// the index field of another position of the same tree
+    IndexOf(u16),
+    /// index + d
+    IndexPlus(i8),
+}
+
+#[derive(Clone, Debug, Serialize, Deserialize)]
+pub enum ProofVar {
+    Honest,
+    /// honest proof of another position of the same tree
+    OfLeaf(u16),
+    /// honest proof of the same position in the OTHER tree
+    OtherTree,
+    Corrupt { kind: Kind, a: u16, b: u16, r: u64 },
+    Empty,
+}
+
+#[derive(Clone, Debug, Serialize, Deserialize)]
+pub enum RootSel {
+    Tree(u8),
+    Random(u64),
+}
+
+#[derive(Clone, Debug, Serialize, Deserialize)]
+pub enum HOp {
+    /// claim with leaf data and proof taken from tree `tree` (0 = A, 1 = B), then varied
+    Claim { tree: u8, who: Who, data: DataVar, proof: ProofVar, approve: bool },
+    SetRoot(RootSel),
+    Advance(u32),
+}
+
+#[derive(Clone, Debug, Serialize, Deserialize)]
+pub struct HCase {
+    pub target: Target,
+    pub n: u8,
+    pub n2: u8,
+    pub seed: u64,
+    /// sorted form only: indices are scattered unique values instead of 0..n
+    pub scattered: bool,
+    /// bit (p % 16): tree B's leaf at position p is byte-identical to tree A's
+    pub same_data: u16,
+    /// distributor only: root A is set before the history starts
+    pub init_root: bool,
+    /// airdrop only: funding = total allocation * min(fund,4) / 4
+    pub fund: u8,
+    pub ops: Vec<HOp>,
+}
+
+#[derive(Clone, Debug, PartialEq, Eq)]
+struct LeafData {
+    index: u32,
+    who: usize,
+    amount: i128,
+}
+
+struct DTree {
+    data: Vec<LeafData>,
+    tree: Tree,
+}
+
+fn sym(s: &str) -> ScVal {
+    ScVal::Symbol(ScSymbol(s.try_into().expect("symbol")))
+}
+fn sc_i128(x: i128) -> ScVal {
+    ScVal::I128(Int128Parts { hi: (x >> 64) as i64, lo: x as u64 })
+}
+/// XDR of a `#[contracttype]` struct: an ScVal map keyed by the field names, keys sorted.
+fn struct_xdr(fields: Vec<(&str, ScVal)>) -> Vec<u8> {
+    let mut f = fields;
+    f.sort_by(|x, y| x.0.as_bytes().cmp(y.0.as_bytes()));
+    let ents: Vec<ScMapEntry> = f.into_iter().map(|(k, v)| ScMapEntry { key: sym(k), val: v }).collect();
+    ScVal::Map(Some(ScMap(ents.try_into().expect("map")))).to_xdr(Limits::none()).expect("xdr")
+}
+fn leaf_preimage(target: Target, d: &LeafData, accts: &[Address]) -> Vec<u8> {
+    let addr = ScVal::Address(ScAddress::try_from(&accts[d.who]).expect("addr"));
+    match target {
+        Target::Voting => struct_xdr(vec![("index", ScVal::U32(d.index)), ("account", addr), ("voting_power", sc_i128(d.amount))]),
+        _ => struct_xdr(vec![("index", ScVal::U32(d.index)), ("address", addr), ("amount", sc_i128(d.amount))]),
+    }
+}
+
+fn target_hk(t: Target) -> Hk {
+    match t {
+        Target::Distrib { keccak: true, .. } => Hk::Keccak,
+        _ => Hk::Sha256,
+    }
+}
+fn target_positional(t: Target) -> bool {
+    matches!(t, Target::Distrib { indexed: true, .. })
+}
+fn target_entry(t: Target) -> &'static str {
+    match t {
+        Target::Distrib { indexed: false, .. } => "verify_and_set_claimed",
+        Target::Distrib { indexed: true, .. } => "verify_with_index_and_set_claimed",
+        Target::Airdrop => "airdrop.claim",
+        Target::Voting => "voting.vote",
+    }
+}
+
+struct World {
+    e: Env,
+    target: Target,
+    addr: Address,
+    token: Option<Address>,
+    accts: Vec<Address>,
+}
+
+impl World {
+    fn claim(&self, d: &LeafData, proof: &[H32], approve: bool) -> Result<(), String> {
+        let e = &self.e;
+        let who = self.accts[d.who].clone();
+        let pv = bvec(e, proof);
+        let r = match self.target {
+            Target::Distrib { indexed, .. } => {
+                let leaf = crate::contracts::c17::leaf::Leaf { index: d.index, address: who, amount: d.amount };
+                envx::call(e, &self.addr, if indexed { "claim_indexed" } else { "claim_sorted" }, args![e; leaf, pv])
+            }
+            Target::Airdrop => envx::call(e, &self.addr, "claim", args![e; d.index, who, d.amount, pv]),
+            Target::Voting => {
+                let vd = crate::examples::merkle_voting::contract::VoteData { index: d.index, account: who, voting_power: d.amount };
+                envx::call(e, &self.addr, "vote", args![e; vd, pv, approve])
+            }
+        };
+        r.map(|_| ())
+    }
+    /// public entry point
+    fn api_is_claimed(&self, i: u32) -> Result<bool, String> {
+        let f = if self.target == Target::Voting { "has_voted" } else { "is_claimed" };
+        envx::call_t::<bool>(&self.e, &self.addr, f, args![&self.e; i])
+    }
+    /// bulk read of the claimed flags (distributor: `dump` entry point; examples: the library's
+    /// public getter inside the contract's context)
+    fn flags(&self, idx: &[u32]) -> Result<Vec<bool>, String> {
+        let e = &self.e;
+        match self.target {
+            Target::Distrib { .. } => {
+                let mut v = soroban_sdk::Vec::<u32>::new(e);
+                for i in idx {
+                    v.push_back(*i);
+                }
+                let r = envx::call_t::<soroban_sdk::Vec<bool>>(e, &self.addr, "dump", args![e; v])?;
+                Ok(r.iter().collect())
+            }
+            _ => Ok(e.as_contract(&self.addr, || {
+                idx.iter()
+                    .map(|i| {
+                        stellar_contract_utils::merkle_distributor::MerkleDistributor::<stellar_contract_utils::crypto::sha256::Sha256>::is_claimed(e, *i)
+                    })
+                    .collect()
+            })),
+        }
+    }
+    fn balances(&self) -> Vec<i128> {
+        let e = &self.e;
+        let tok = self.token.as_ref().expect("token");
+        let mut hs = self.accts.clone();
+        hs.push(self.addr.clone());
+        e.as_contract(tok, || hs.iter().map(|a| stellar_tokens::fungible::Base::balance(e, a)).collect())
+    }
+    fn api_balance(&self, a: &Address) -> Result<i128, String> {
+        envx::call_t::<i128>(&self.e, self.token.as_ref().expect("token"), "balance", args![&self.e; a.clone()])
+    }
+}
+
+fn build_dtree(case: &HCase, which: u8, accts: &[Address], a: Option<&DTree>) -> DTree {
+    let target = case.target;
+    let hk = target_hk(target);
+    let positional = target_positional(target);
+    let seed = case.seed ^ ((which as u64) << 60);
+    let n = if which == 0 { case.n } else { case.n2 }.max(1) as usize;
+    let scattered = case.scattered && !positional;
+    let mut used: BTreeSet<u32> = BTreeSet::new();
+    let mut data: Vec<LeafData> = vec![];
+    for p in 0..n {
+        // tree B shares indices (and, per `same_data`, whole leaves) with tree A
+        let from_a = a.and_then(|a| a.data.get(p));
+        let mut index = match from_a {
+            Some(l) => l.index,
+            None => {
+                if scattered {
+                    if p == n - 1 && case.seed & 1 == 1 {
+                        u32::MAX
+                    } else {
+                        ((derive_u64(seed, "idx", p as u32) % 1000) as u32) * 64 + p as u32
+                    }
+                } else {
+                    p as u32
+                }
+            }
+        };
+        while used.contains(&index) {
+            index = index.wrapping_add(64);
+        }
+        used.insert(index);
+        let same = from_a.is_some() && (case.same_data >> (p % 16)) & 1 == 1;
+        let l = if same {
+            from_a.unwrap().clone()
+        } else {
+            // amounts 1..=1000, occasionally 0
+            let amount = if derive_u64(seed, "zero", p as u32) % 16 == 0 { 0 } else { (derive_u64(seed, "amt", p as u32) % 1000) as i128 + 1 };
+            LeafData { index, who: (derive_u64(seed, "who", p as u32) % accts.len() as u64) as usize, amount }
+        };
+        data.push(l);
+    }
+    // leaf hashes must be distinct (they are: indices are unique)
+    let leaves: Vec<H32> = data.iter().map(|d| hash(hk, &[&leaf_preimage(target, d, accts)])).collect();
+    let form = if positional {
+        Form::Positional
+    } else if case.seed & 2 == 2 {
+        Form::SortedHeap
+    } else {
+        Form::SortedPromote
+    };
+    DTree { data, tree: build_tree(form, hk, &leaves, seed) }
+}
+
+pub fn run_history(case: &HCase, ctx: &mut Ctx) -> R {
+    let target = case.target;
+    let hk = target_hk(target);
+    let positional = target_positional(target);
+    let entry = target_entry(target);
+    let e = envx::new_env(1000, envx::BIG_TTL);
+    let n_acct = (case.n.max(1) as usize).min(4) + 1;
+    let accts: Vec<Address> = envx::actors(&e, n_acct);
+
+    let ta = build_dtree(case, 0, &accts, None);
+    let tb = build_dtree(case, 1, &accts, Some(&ta));
+    let trees = [ta, tb];
+
+    // ---- set-up
+    let total: i128 = trees[0].data.iter().map(|d| d.amount).sum();
+    let funding: i128 = total * (case.fund.min(4) as i128) / 4;
+    let mut current_root: Option<H32> = None;
+    let w = match target {
+        Target::Distrib { keccak, .. } => {
+            let addr = if keccak {
+                e.register(crate::contracts::c17::distrib_kec::DistribKec, ())
+            } else {
+                e.register(crate::contracts::c17::distrib_sha::DistribSha, ())
+            };
+            World { e: e.clone(), target, addr, token: None, accts: accts.clone() }
+        }
+        Target::Airdrop => {
+            let admin = envx::actor(&e);
+            let source = envx::actor(&e);
+            e.mock_all_auths_allowing_non_root_auth();
+            let token = e.register(crate::contracts::ft::ft_base::FtBase, (admin.clone(),));
+            let r = envx::call(&e, &token, "mint", args![&e; source.clone(), funding]);
+            ensure!(r.is_ok(), "C17/harness-internal/setup-mint", "token mint failed: {:?}", r);
+            let addr = e.register(
+                crate::examples::fungible_merkle_airdrop::contract::AirdropContract,
+                (b32(&e, &trees[0].tree.root), token.clone(), funding, source.clone()),
+            );
+            envx::no_auth(&e);
+            current_root = Some(trees[0].tree.root);
+            World { e: e.clone(), target, addr, token: Some(token), accts: accts.clone() }
+        }
+        Target::Voting => {
+            let addr = e.register(crate::examples::merkle_voting::contract::MerkleVoting, (b32(&e, &trees[0].tree.root),));
+            current_root = Some(trees[0].tree.root);
+            World { e: e.clone(), target, addr, token: None, accts: accts.clone() }
+        }
+    };
+    envx::no_auth(&e);
+    let is_distrib = matches!(target, Target::Distrib { .. });
+    if is_distrib && case.init_root {
+        let r = envx::call(&e, &w.addr, "set_root", args![&e; b32(&e, &trees[0].tree.root)]);
+        ensure!(r.is_ok(), "C17/set_root/failed", "initial set_root failed: {:?}", r);
+        current_root = Some(trees[0].tree.root);
+    }
+
+    // ---- model
+    let mut universe: BTreeSet<u32> = [0u32, 1, u32::MAX].into_iter().collect();
+    for t in &trees {
+        for d in &t.data {
+            universe.insert(d.index);
+            universe.insert(d.index.wrapping_add(1));
+        }
+    }
+    let mut claimed: BTreeSet<u32> = BTreeSet::new();
+    let mut bal: Vec<i128> = if target == Target::Airdrop { w.balances() } else { vec![] };
+    if target == Target::Airdrop {
+        let mut want = vec![0i128; accts.len()];
+        want.push(funding);
+        ensure!(bal == want, "C17/harness-internal/setup-balances", "unexpected initial balances {:?} vs {:?}", bal, want);
+    }
+    let mut tally: (i128, i128) = (0, 0);
+
+    let mut n_ok = 0u32;
+    let mut n_repeat_refused = 0u32;
+    let mut n_invalid_refused = 0u32;
+
+    // full state comparison
+    let check_state = |w: &World, universe: &BTreeSet<u32>, claimed: &BTreeSet<u32>, current_root: &Option<H32>, bal: &Vec<i128>, tally: &(i128, i128), after: &str, failed_call: bool| -> R {
+        let idx: Vec<u32> = universe.iter().copied().collect();
+        let flags = w.flags(&idx).map_err(|er| violation("C17/is_claimed/read-failed", er))?;
+        for (i, f) in idx.iter().zip(flags.iter()) {
+            let want = claimed.contains(i);
+            if *f != want {
+                let sig = if failed_call {
+                    format!("C17/{entry}/failed-claim-changed-flag")
+                } else if want {
+                    "C17/is_claimed/claimed-flag-lost".to_string()
+                } else {
+                    "C17/is_claimed/flag-set-without-valid-claim".to_string()
+                };
+                return Err(violation(sig, format!("after {after}: is_claimed({i}) = {f}, model says {want}")));
+            }
+        }
+        if matches!(w.target, Target::Distrib { .. }) {
+            let r = envx::call_t::<BytesN<32>>(&w.e, &w.addr, "get_root", args![&w.e]);
+            match (current_root, r) {
+                (Some(root), Ok(got)) => {
+                    ensure!(got.to_array() == *root, "C17/get_root/wrong-root", "after {after}: get_root {} != last set root {}", hex::encode(got.to_array()), hex::encode(root))
+                }
+                (Some(_), Err(er)) => bail!("C17/get_root/failed", "after {after}: get_root failed although a root is set: {er}"),
+                (None, Ok(got)) => bail!("C17/get_root/unset-root-returned", "after {after}: get_root returned {} before any set_root", hex::encode(got.to_array())),
+                (None, Err(_)) => {}
+            }
+        }
+        if w.target == Target::Airdrop {
+            let got = w.balances();
+            ensure!(
+                got == *bal,
+                if failed_call { "C17/airdrop.claim/failed-claim-moved-tokens" } else { "C17/airdrop.claim/payout-mismatch" },
+                "after {after}: token balances (accounts.., airdrop contract) {:?}, model {:?}",
+                got,
+                bal
+            );
+        }
+        if w.target == Target::Voting {
+            let r = envx::call_t::<(i128, i128)>(&w.e, &w.addr, "get_vote_results", args![&w.e]);
+            match r {
+                Ok(got) => ensure!(
+                    got == *tally,
+                    if failed_call { "C17/voting.vote/failed-vote-counted" } else { "C17/voting.vote/tally-mismatch" },
+                    "after {after}: (pro, against) = {:?}, model {:?}",
+                    got,
+                    tally
+                ),
+                Err(er) => bail!("C17/voting.get_vote_results/failed", "after {after}: {er}"),
+            }
+        }
+        Ok(())
+    };
+    check_state(&w, &universe, &claimed, &current_root, &bal, &tally, "set-up", false)?;
+
+    for (step, op) in case.ops.iter().enumerate() {
+        match op {
+            HOp::Advance(k) => {
+                envx::advance(&e, *k);
+                check_state(&w, &universe, &claimed, &current_root, &bal, &tally, &format!("step {step} advance({k})"), false)?;
+            }
+            HOp::SetRoot(sel) => {
+                if !is_distrib {
+                    ctx.class("skipped_op");
+                    continue;
+                }
+                let root = match sel {
+                    RootSel::Tree(k) => trees[(*k & 1) as usize].tree.root,
+                    RootSel::Random(r) => derive(*r, "random-root", 0),
+                };
+                let r = envx::call(&e, &w.addr, "set_root", args![&e; b32(&e, &root)]);
+                ctx.op(r.is_ok());
+                ensure!(r.is_ok(), "C17/set_root/failed", "step {step}: set_root failed: {:?}", r);
+                if current_root.is_some() && current_root != Some(root) {
+                    ctx.class("root_changed");
+                }
+                current_root = Some(root);
+                check_state(&w, &universe, &claimed, &current_root, &bal, &tally, &format!("step {step} set_root"), false)?;
+            }
+            HOp::Claim { tree, who, data, proof, approve } => {
+                let ti = (*tree & 1) as usize;
+                let src = &trees[ti];
+                let n = src.data.len();
+                // resolve the position against the model
+                let p = match who {
+                    Who::Any(s) => pick(*s, n),
+                    Who::Claimed(s) | Who::Unclaimed(s) => {
+                        let want = matches!(who, Who::Claimed(_));
+                        let cands: Vec<usize> = (0..n).filter(|p| claimed.contains(&src.data[*p].index) == want).collect();
+                        if cands.is_empty() {
+                            pick(*s, n)
+                        } else {
+                            cands[pick(*s, cands.len())]
+                        }
+                    }
+                };
+                let honest_d = src.data[p].clone();
+                let mut d = honest_d.clone();
+                match data {
+                    DataVar::Honest => {}
+                    DataVar::AmountPlus(k) => d.amount += if *k == 0 { 1 } else { *k as i128 },
+                    DataVar::OtherAddress(s) => d.who = (d.who + 1 + pick(*s, accts.len() - 1)) % accts.len(),
+                    DataVar::IndexOf(s) => d.index = src.data[pick(*s, n)].index,
+                    DataVar::IndexPlus(k) => d.index = d.index.wrapping_add(if *k == 0 { 1 } else { *k as i32 as u32 }),
+                }
+                let honest_p = src.tree.proofs[p].clone();
+                let leaf_hash = hash(hk, &[&leaf_preimage(target, &d, &accts)]);
+                let pf: Vec<H32> = match proof {
+                    ProofVar::Honest => honest_p.clone(),
+                    ProofVar::OfLeaf(s) => src.tree.proofs[pick(*s, n)].clone(),
+                    ProofVar::OtherTree => {
+                        let o = &trees[1 - ti];
+                        if p < o.data.len() {
+                            o.tree.proofs[p].clone()
+                        } else {
+                            o.tree.proofs[o.data.len() - 1].clone()
+                        }
+                    }
+                    ProofVar::Corrupt { kind, a, b, r } => match corrupt_proof(*kind, &honest_p, &src.tree.root, &leaf_hash, *a, *b, *r) {
+                        Some(x) => x,
+                        None => {
+                            ctx.class("inapplicable");
+                            honest_p.clone()
+                        }
+                    },
+                    ProofVar::Empty => vec![],
+                };
+                universe.insert(d.index);
+
+                // validity of the submitted (leaf, proof) against the CURRENT root, by the reference fold
+                let ref_valid = match current_root {
+                    None => false,
+                    Some(root) => ref_verify(hk, positional, &Input { proof: pf.clone(), root, leaf: leaf_hash, index: d.index }) == Some(true),
+                };
+                let honest_by_construction = d == honest_d && pf == honest_p && current_root == Some(src.tree.root);
+                if honest_by_construction && !ref_valid {
+                    bail!("C17/harness-internal/builder-inconsistent", "step {step}: reference fold rejects an honest claim");
+                }
+                if !honest_by_construction && ref_valid {
+                    // e.g. both trees contain the identical leaf at an identical path
+                    ctx.class("variant_still_valid");
+                }
+                let pre_claimed = claimed.contains(&d.index);
+                // preconditions outside the Merkle logic
+                let payable = match target {
+                    Target::Airdrop => d.amount >= 0 && *bal.last().unwrap() >= d.amount,
+                    _ => true,
+                };
+                let r = w.claim(&d, &pf, *approve);
+                ctx.op(r.is_ok());
+                let what = format!(
+                    "step {step} {entry}(tree {}, position {p}, index {}, amount {}, data {:?}, proof {:?})",
+                    if ti == 0 { "A" } else { "B" },
+                    d.index,
+                    d.amount,
+                    data,
+                    proof
+                );
+                match &r {
+                    Ok(()) => {
+                        let class = if current_root.is_none() {
+                            "no-root"
+                        } else if current_root != Some(src.tree.root) && d == honest_d && pf == honest_p {
+                            "proof-for-other-root"
+                        } else if d != honest_d {
+                            "altered-leaf-data"
+                        } else {
+                            "altered-proof"
+                        };
+                        ensure!(ref_valid, format!("C17/{entry}/invalid-proof-accepted/{class}"), "{what} succeeded without a valid proof against the current root");
+                        ensure!(!pre_claimed, format!("C17/{entry}/double-claim"), "{what} succeeded although index {} was already claimed", d.index);
+                        ensure!(payable, "C17/airdrop.claim/paid-without-funds", "{what} succeeded although the contract holds {:?}", bal.last());
+                        claimed.insert(d.index);
+                        n_ok += 1;
+                        ctx.class("claim_ok");
+                        if current_root == Some(trees[1].tree.root) && trees[1].tree.root != trees[0].tree.root {
+                            ctx.class("claim_ok_after_root_change");
+                        }
+                        match target {
+                            Target::Airdrop => {
+                                let last = bal.len() - 1;
+                                bal[last] -= d.amount;
+                                bal[d.who] += d.amount;
+                            }
+                            Target::Voting => {
+                                if *approve {
+                                    tally.0 += d.amount;
+                                } else {
+                                    tally.1 += d.amount;
+                                }
+                            }
+                            _ => {}
+                        }
+                    }
+                    Err(er) => {
+                        if ref_valid && !pre_claimed && payable {
+                            bail!(format!("C17/{entry}/honest-claim-refused"), "{what}: valid proof for an unclaimed index against the current root was refused: {er}");
+                        }
+                        if ref_valid && pre_claimed {
+                            n_repeat_refused += 1;
+                            ctx.class("repeat_claim_refused");
+                            if !honest_by_construction || ti == 1 {
+                                ctx.class("repeat_claim_refused_via_other_tree");
+                            }
+                        } else if !ref_valid {
+                            n_invalid_refused += 1;
+                            ctx.class("invalid_claim_refused");
+                            if !matches!(data, DataVar::Honest) {
+                                ctx.class("altered_data_refused");
+                            } else if !matches!(proof, ProofVar::Honest) {
+                                ctx.class("altered_proof_refused");
+                            } else {
+                                ctx.class("stale_root_proof_refused");
+                            }
+                        } else {
+                            ctx.class("underfunded_claim_refused");
+                        }
+                    }
+                }
+                check_state(&w, &universe, &claimed, &current_root, &bal, &tally, &what, r.is_err())?;
+                // public entry points for the touched index / receiver
+                let got = w.api_is_claimed(d.index).map_err(|er| violation("C17/is_claimed/read-failed", er))?;
+                ensure!(
+                    got == claimed.contains(&d.index),
+                    "C17/is_claimed/entry-point-mismatch",
+                    "{what}: is_claimed({}) = {got}, model {}",
+                    d.index,
+                    claimed.contains(&d.index)
+                );
+                if target == Target::Airdrop {
+                    let b = w.api_balance(&accts[d.who]).map_err(|er| violation("C17/airdrop.token/balance-failed", er))?;
+                    ensure!(b == bal[d.who], "C17/airdrop.claim/payout-mismatch", "{what}: balance() of the receiver = {b}, model {}", bal[d.who]);
+                }
+            }
+        }
+    }
+    if n_ok >= 1 && n_repeat_refused >= 1 && n_invalid_refused >= 1 {
+        ctx.nontrivial = true;
+        ctx.class("nontrivial");
+        ctx.class("nontrivial_history");
+    }
+    Ok(())
+}
+
+fn hop_strategy(distrib: bool) -> BoxedStrategy<HOp> {
+    let who = prop_oneof![3 => any::<u16>().prop_map(Who::Any), 3 => any::<u16>().prop_map(Who::Claimed), 4 => any::<u16>().prop_map(Who::Unclaimed)];
+    let data = prop_oneof![
+        12 => Just(DataVar::Honest),
+        2 => prop_oneof![Just(1i8), Just(-1i8), any::<i8>()].prop_map(DataVar::AmountPlus),
+        1 => any::<u16>().prop_map(DataVar::OtherAddress),
+        2 => any::<u16>().prop_map(DataVar::IndexOf),
+        1 => prop_oneof![Just(1i8), Just(-1i8), any::<i8>()].prop_map(DataVar::IndexPlus),
+    ];
+    let proof = prop_oneof![
+        12 => Just(ProofVar::Honest),
+        2 => any::<u16>().prop_map(ProofVar::OfLeaf),
+        2 => Just(ProofVar::OtherTree),
+        3 => (proptest::sample::select(PROOF_KINDS.to_vec()), any::<u16>(), any::<u16>(), any::<u64>()).prop_map(|(kind, a, b, r)| ProofVar::Corrupt { kind, a, b, r }),
+        1 => Just(ProofVar::Empty),
+    ];
+    let claim = (prop_oneof![3 => Just(0u8), 2 => Just(1u8)], who, data, proof, any::<bool>())
+        .prop_map(|(tree, who, data, proof, approve)| HOp::Claim { tree, who, data, proof, approve });
+    let set_root = prop_oneof![4 => (0u8..2).prop_map(RootSel::Tree), 1 => any::<u64>().prop_map(RootSel::Random)].prop_map(HOp::SetRoot);
+    let adv = prop_oneof![3 => 0u32..100, 1 => Just(17280u32 * 31), 1 => Just(600_000u32)].prop_map(HOp::Advance);
+    if distrib {
+        prop_oneof![12 => claim, 3 => set_root, 1 => adv].boxed()
+    } else {
+        prop_oneof![14 => claim, 1 => adv].boxed()
+    }
+}
+
+fn hcase_strategy(target: BoxedStrategy<Target>, distrib: bool, tier: Tier) -> BoxedStrategy<HCase> {
+    let nmax = tier.pick(12u8, 40u8);
+    let n = prop_oneof![1 => Just(1u8), 1 => Just(2u8), 6 => 3u8..=nmax];
+    let n2 = prop_oneof![1 => Just(1u8), 7 => 2u8..=nmax];
+    let fund = prop_oneof![5 => Just(4u8), 1 => 0u8..4];
+    let ops = proptest::collection::vec(hop_strategy(distrib), 0..=25);
+    (target, n, n2, any::<u64>(), any::<bool>(), any::<u16>(), proptest::bool::weighted(0.85), fund, ops)
+        .prop_map(|(target, n, n2, seed, scattered, same_data, init_root, fund, ops)| HCase { target, n, n2, seed, scattered, same_data, init_root, fund, ops })
+        .boxed()
+}
+fn distrib_strategy(tier: Tier) -> BoxedStrategy<HCase> {
+    let t = (any::<bool>(), any::<bool>()).prop_map(|(keccak, indexed)| Target::Distrib { keccak, indexed }).boxed();
+    hcase_strategy(t, true, tier)
+}
+fn airdrop_strategy(tier: Tier) -> BoxedStrategy<HCase> {
+    hcase_strategy(Just(Target::Airdrop).boxed(), false, tier)
+}
+fn voting_strategy(tier: Tier) -> BoxedStrategy<HCase> {
+    hcase_strategy(Just(Target::Voting).boxed(), false, tier)
+}
 
 pub fn property() -> Property {
-    Property { id: "C17", rule: "", subs: vec![], floors: vec![], assumptions: vec![] }
+    Property {
+        id: "C17",
+        rule: "verify-* case = (tree form, n in 1..=40 (thorough ..=300) distinct pseudo-random leaves from a seed, common-prefix length, \
+               one probe of every corruption kind + extras); trees built with sha2/sha3 for BOTH hashers (sorted-pair with promoted odd node or OZ heap layout; \
+               positional padded to 2^k with distinct fillers); every leaf's honest proof must verify, every corruption must be rejected. \
+               non-trivial (verify-*, exhaustive-small) = n >= 3, n not a power of two, and for both hashers >= 1 accepted and >= 5 rejected probes. \
+               history case = (target, two trees A/B sharing indices, <= 25 ops: claims with honest/altered data and proofs from either tree, set_root, advance); \
+               non-trivial (histories) = >= 1 successful claim, >= 1 refused repeat claim carrying a valid proof, >= 1 refused invalid claim; distinct = distinct serialised case",
+        subs: vec![
+            gen_sub::<VCase>("verify-sorted", 300, 5000, sorted_strategy, run_verify),
+            gen_sub::<VCase>("verify-indexed", 300, 5000, indexed_strategy, run_verify),
+            Box::new(Fixed { name: "exhaustive-small", slabs: exhaustive_slabs, run: run_exhaustive }),
+            gen_sub::<HCase>("distrib", 600, 12000, distrib_strategy, run_history),
+            gen_sub::<HCase>("airdrop", 300, 6000, airdrop_strategy, run_history),
+            gen_sub::<HCase>("voting", 300, 6000, voting_strategy, run_history),
+        ],
+        // <= 1/10 of the minimum measured over seeds 0..5 (quick) / seed 0 (thorough)
+        floors: vec![
+            ("nontrivial", 100, 1800),
+            ("nontrivial_history", 50, 900),
+            ("unbalanced_tree", 40, 800),
+            ("single_leaf_tree", 1, 20),
+            ("rejected:proof-swap", 140, 3000),
+            ("rejected:proof-drop-middle", 120, 3000),
+            ("rejected:index-minus-1", 70, 2000),
+            ("rejected:index-high-bits", 900, 6000),
+            ("out_of_bounds_failed", 1000, 8000),
+            ("claim_ok", 180, 3900),
+            ("claim_ok_after_root_change", 15, 400),
+            ("repeat_claim_refused", 130, 2300),
+            ("repeat_claim_refused_via_other_tree", 12, 250),
+            ("altered_data_refused", 390, 8000),
+            ("altered_proof_refused", 280, 5900),
+            ("stale_root_proof_refused", 200, 4700),
+            ("underfunded_claim_refused", 5, 100),
+        ],
+        assumptions: vec![
+            "Soroban native test host (sha256/keccak256 host functions, XDR serialisation of contract types, storage, rollback) is trusted",
+            "SHA-256 / Keccak-256 collisions are not encountered (a corrupted input whose reference fold still equals the root is discarded and counted)",
+            "claimed flags are observed through is_claimed / has_voted; persistent-entry expiry is not observable in the native test host (auto-restore)",
+        ],
+    }
 }
